@@ -373,13 +373,11 @@ def indexVal (b i : Val) (sp : Span) : M Val := do
       | none => throwCtl (.unsupported "index with a missing key")
     | _ => throwCtl (.unsupported "index base")
   | .str s, .int k =>
-    -- byte indexing: only ASCII strings are modelled
-    if s.toList.all (·.toNat < 128) then
-      match wrapIndex k s.length with
-      | some n => pure (.str (String.singleton (s.toList.getD n ' ')))
-      | none => throwCtl (.fatal "IndexOutOfBounds"
-          s!"Index out of bounds: cannot index a string of length {s.length} with {if k.toInt < 0 then k.toInt + s.length else k.toInt}" sp)
-    else throwCtl (.unsupported "index into a non-ASCII string")
+    -- strings are indexed by character, as `len` and iteration count them
+    match wrapIndex k s.length with
+    | some n => pure (.str (String.singleton (s.toList.getD n ' ')))
+    | none => throwCtl (.fatal "IndexOutOfBounds"
+        s!"Index out of bounds: cannot index a string of length {s.length} with {if k.toInt < 0 then k.toInt + s.length else k.toInt}" sp)
   | _, _ => throwCtl (.unsupported "index operands")
 def memberVal (b : Val) (name : String) (op : MemberOp) (_sp : Span) : M Val := do
   match op with
@@ -405,9 +403,7 @@ def iterElems (v : Val) : M (List Val) := do
     match ← readCell a with
     | .list xs => pure xs
     | _ => throwCtl (.unsupported "iteration over this value")
-  | .str s =>
-    if s.toList.all (·.toNat < 128) then pure (s.toList.map fun c => Val.str (String.singleton c))
-    else throwCtl (.unsupported "iteration over a non-ASCII string")
+  | .str s => pure (s.toList.map fun c => Val.str (String.singleton c))
   | _ => throwCtl (.unsupported "iteration over this value")
 def callBuiltin (name : String) (vals : List Val) (sp : Span) : M Val := do
   match name with
